@@ -48,6 +48,11 @@ func newSchedGen(rng *zzverif.Rng) *schedGen {
 	if rng.Chance(1, 20) {
 		g.nReqs = 1
 	}
+	if os.Getenv("VERIF_TIER") != "thorough" {
+		// the oracle follows every interleaving of the model: many requests in flight at once make single traces cost
+		// tens of seconds there; the quick tier keeps them smaller (the directed openings below may still raise it)
+		g.nReqs = min(g.nReqs, 6)
+	}
 	mr := []int{0, 1, 1, 2, 2, 3}
 	if g.nModels == 2 {
 		mr = []int{0, 1, 1, 1, 2, 2, 3} // more often fewer slots than models: evictions
@@ -87,7 +92,7 @@ func newSchedGen(rng *zzverif.Rng) *schedGen {
 	g.routed = []int{0, 0, 2, 2, 4, 8}[rng.Intn(6)]
 	var open []schedEv
 	// directed openings (the random walk reaches these states too rarely); the walk continues after them
-	switch rng.Intn(14) {
+	switch rng.Intn(22) {
 	case 2: // a fixed parallel factor, a model that does not fit next to the one still loading: it is put back on the queue
 		// and must still be started with ITS options (NumCtx x factor), and then be reused by the same request again
 		g.cfg.cpu, g.cfg.ngpus, g.gpumem, g.np = 0, 2, 1, []int{2, 2, 4, 0}[rng.Intn(4)]
@@ -135,6 +140,91 @@ func newSchedGen(rng *zzverif.Rng) *schedGen {
 		open = append(open, schedEv{kind: "ping", a: 0, b: 2}, schedEv{kind: sub, a: 0, sess: g.sess()},
 			schedEv{kind: "done", a: 1}, schedEv{kind: "pingdone", a: 0, b: 1})
 		g.tags["open_cancel_during_ping"]++
+	case 10, 11: // more idle unloads than the scheduler's channels hold (their capacity is OLLAMA_MAX_QUEUE), none of them awaited
+		// by the pending loop (no eviction wait), then a fresh request: it must be served AND cleaned up like the first
+		g.cfg.maxQueue = rng.Range(1, 2)
+		if g.cfg.maxRunners == 1 && g.nModels > 1 {
+			g.cfg.maxRunners = 0
+		}
+		g.closeMs = 0
+		n := g.cfg.maxQueue + 1 + rng.Intn(2)
+		g.nReqs = max(g.nReqs, n+2)
+		g.wantDrain = true
+		for i := 0; i < n; i++ {
+			m := rng.Intn(g.nModels)
+			switch rng.Intn(3) {
+			case 0: // keep_alive = 0: unloaded when the request ends
+				open = append(open, schedEv{kind: "submit", a: m, sess: "0"}, schedEv{kind: "loaddone", a: i, b: 1}, schedEv{kind: "done", a: i})
+			case 1: // the keep-alive runs out
+				open = append(open, schedEv{kind: "submit", a: m, sess: "S"}, schedEv{kind: "loaddone", a: i, b: 1}, schedEv{kind: "done", a: i}, schedEv{kind: "advance", a: 60})
+			default: // explicit unload of the idle runner
+				open = append(open, schedEv{kind: "submit", a: m, sess: "L"}, schedEv{kind: "loaddone", a: i, b: 1}, schedEv{kind: "done", a: i}, schedEv{kind: "unload", a: m})
+			}
+		}
+		open = append(open, schedEv{kind: "submit", a: rng.Intn(g.nModels), sess: zzverif.Pick(rng, []string{"S", "0", "-"})}, schedEv{kind: "loaddone", a: n, b: 1}, schedEv{kind: "done", a: n})
+		g.tags["open_idle_unloads_overflow"]++
+	case 8, 9: // other models are loaded and the memory they leave free is near the new model's fit boundary: start next to them
+		// only if it really fits, else evict first (case 9: with a busy keep_alive=0 runner and an idle one to choose from)
+		g.cfg.cpu, g.cfg.ngpus = 0, 1
+		g.cfg.maxRunners = []int{0, 3}[rng.Intn(2)]
+		g.nModels = 3
+		g.nReqs = max(g.nReqs, 4)
+		g.np = []int{1, 1, 1, 2, 0}[rng.Intn(5)]
+		g.gpumem = 0
+		a, b := rng.Intn(3), 0
+		for b = rng.Intn(3); b == a; b = rng.Intn(3) {
+		}
+		c := 3 - a - b
+		k := rng.Intn(2)
+		if rng.Intn(2) == 0 {
+			open = []schedEv{{kind: "submit", a: a, sess: zzverif.Pick(rng, []string{"L", "L", "S", "0"})}, {kind: "loaddone", a: 0, b: 1}}
+			if rng.Chance(1, 2) {
+				open = append(open, schedEv{kind: "done", a: 0})
+			}
+			open = append(open, schedEv{kind: "gpumem", a: g.nearBoundary(b, k)}, schedEv{kind: "submit", a: b, b: k, sess: g.sess()})
+			g.tags["open_fit_boundary"]++
+		} else {
+			open = []schedEv{{kind: "submit", a: a, sess: "0"}, {kind: "loaddone", a: 0, b: 1}, {kind: "submit", a: b, sess: "L"}, {kind: "loaddone", a: 1, b: 1},
+				{kind: "done", a: 1}, {kind: "gpumem", a: g.nearBoundary(c, k)}, {kind: "submit", a: c, b: k, sess: g.sess()}}
+			g.tags["open_nofit_victim_choice"]++
+		}
+	case 7: // every slot taken, one runner BUSY with keep_alive=0 (first in the victim order), another idle with a non-zero
+		// keep-alive: making room must take the idle one
+		g.nModels, g.cfg.maxRunners = 3, 2
+		g.nReqs = max(g.nReqs, 4)
+		a, b := rng.Intn(3), 0
+		for b = rng.Intn(3); b == a; b = rng.Intn(3) {
+		}
+		open = []schedEv{{kind: "submit", a: a, sess: "0"}, {kind: "loaddone", a: 0, b: 1},
+			{kind: "submit", a: b, sess: zzverif.Pick(rng, []string{"S", "L", "L"})}, {kind: "loaddone", a: 1, b: 1}}
+		if rng.Chance(1, 2) {
+			open[0], open[1], open[2], open[3] = open[2], open[1], open[0], open[3] // the idle one was loaded first
+			open = append(open, schedEv{kind: "done", a: 0})
+		} else {
+			open = append(open, schedEv{kind: "done", a: 1})
+		}
+		if rng.Chance(1, 3) {
+			open = append(open, schedEv{kind: "advance", a: 20})
+		}
+		open = append(open, schedEv{kind: "submit", a: 3 - a - b, sess: g.sess()})
+		g.tags["open_victim_busy_zero_keepalive"]++
+	case 6: // the pending loop descheduled between needsReload and useLoadedRunner while the idle runner is unloaded
+		if !g.blockPing {
+			break
+		}
+		g.nReqs = max(g.nReqs, 3)
+		sub := "submit"
+		if rng.Chance(1, 3) {
+			sub = "submitr"
+		}
+		if rng.Chance(1, 2) {
+			open = []schedEv{{kind: "submit", a: 0, sess: "S"}, {kind: "loaddone", a: 0, b: 1}, {kind: "done", a: 0}, {kind: "ping", a: 0, b: 3},
+				{kind: sub, a: 0, sess: g.sess()}, {kind: "advance", a: 50 + rng.Intn(20)}, {kind: "pingdone", a: 0, b: 1}}
+		} else {
+			open = []schedEv{{kind: "submit", a: 0, sess: "L"}, {kind: "loaddone", a: 0, b: 1}, {kind: "done", a: 0}, {kind: "ping", a: 0, b: 3},
+				{kind: sub, a: 0, sess: g.sess()}, {kind: "unload", a: 0}, {kind: "pingdone", a: 0, b: 1}}
+		}
+		g.tags["open_window_opening"]++
 	case 0: // two slots, three models, one loaded runner idle and one busy: the victim must be the idle one
 		g.nModels, g.cfg.maxRunners = 3, 2
 		g.nReqs = max(g.nReqs, 4)
@@ -168,8 +258,31 @@ func newSchedGen(rng *zzverif.Rng) *schedGen {
 	}
 	g.forced = append(g.forced, open...)
 	g.budget = 6 + 6*g.nReqs + rng.Intn(8) + len(g.forced)
-	g.wantDrain = rng.Chance(17, 20)
+	g.wantDrain = g.wantDrain || rng.Chance(17, 20)
 	return g
+}
+
+// nearBoundary: a free-memory value (KiB) for GPU 0 around the point at which the real PredictServerFit starts to say that
+// model m (options class k) fits: the window below it is as wide as the model's output layer (where "layers and output
+// fit, the compute graph does not"), plus the exact boundary and its neighbours
+func (g *schedGen) nearBoundary(m, k int) int {
+	np := g.np
+	if np == 0 {
+		np = 1 // automatic: the last factor tried is 1
+	}
+	b := schedFitBoundary(m, k, np)
+	w := schedOutputBytes[m]/1024 + 64
+	switch g.rng.Intn(8) {
+	case 0:
+		return b
+	case 1:
+		return b - 1
+	case 2:
+		return b + 1
+	case 3:
+		return b + g.rng.Intn(w)
+	}
+	return max(2, b-1-g.rng.Intn(w+w/4))
 }
 
 type schedCand struct {
@@ -286,6 +399,23 @@ func (g *schedGen) mainEvent(r *schedRun) (schedEv, bool) {
 				add(w, "submit_unloaded_model", g.submitFor(r, zzverif.Pick(g.rng, ms), true))
 			}
 		}
+		// the memory the loaded models leave free is near the fit boundary of a model that is not loaded
+		if g.cfg.cpu == 0 && g.cfg.ngpus == 1 && len(r.prev.loaded) > 0 {
+			var ms []int
+			for m := 0; m < g.nModels; m++ {
+				if _, ok := r.prev.loaded[m]; !ok {
+					ms = append(ms, m)
+				}
+			}
+			if len(ms) > 0 {
+				m, k := zzverif.Pick(g.rng, ms), g.rng.Intn(2)
+				kind := "submit"
+				if g.rng.Intn(8) < g.routed {
+					kind = "submitr"
+				}
+				add(5, "fit_boundary_submit", schedEv{kind: "gpumem", a: g.nearBoundary(m, k)}, schedEv{kind: kind, a: m, b: k, sess: g.sess()})
+			}
+		}
 		if left >= 2 && g.cfg.maxQueue <= 2 {
 			var evs []schedEv
 			for i := 0; i < min(left, g.cfg.maxQueue+2); i++ {
@@ -335,6 +465,18 @@ func (g *schedGen) mainEvent(r *schedRun) (schedEv, bool) {
 				b = 1
 			}
 			add(1, "ping", schedEv{kind: "ping", a: m.id, b: b})
+			if g.blockPing && !m.pingBlock && left > 0 && r.refs[m.id] != nil && r.prev.refCount[m.id] == 0 && !r.prev.closed[m.id] {
+				// open window: the pending loop is descheduled between needsReload ("usable") and useLoadedRunner while the
+				// idle runner is unloaded by its keep-alive / an explicit unload; the request must then get a fresh runner
+				open := schedEv{kind: "ping", a: m.id, b: 3}
+				sub := g.submitFor(r, m.model, true)
+				if ref := r.refs[m.id]; ref.expireTimer != nil && ref.expiresAt.After(now) && ref.expiresAt.Sub(now) <= schedShort {
+					ms := int(ref.expiresAt.Sub(now)/time.Millisecond) + g.rng.Intn(3)
+					add(8, "open_window_expiry", open, sub, schedEv{kind: "advance", a: max(1, ms)}, schedEv{kind: "pingdone", a: m.id, b: 1})
+				}
+				add(4, "open_window_unload", open, sub, schedEv{kind: "unload", a: m.model}, schedEv{kind: "pingdone", a: m.id, b: 1})
+				add(1, "open_window", open, sub)
+			}
 			if g.blockPing && !m.pingBlock {
 				add(2, "ping_block", schedEv{kind: "ping", a: m.id, b: 2})
 				if left > 0 {
@@ -413,11 +555,17 @@ func (g *schedGen) mainEvent(r *schedRun) (schedEv, bool) {
 			w = 3
 		}
 		u := schedEv{kind: "unload", a: m}
+		if strings.Count(r.cen.mutexDesc, "expireRunner") >= 2 {
+			w = 0 // two expireRunner calls are parked already: more of them only multiply the orders the oracle has to follow
+		}
 		if g.rng.Chance(1, 3) {
 			add(w, "unload_twice", u, u)
 		} else {
 			add(w, "unload", u)
 		}
+	}
+	if r.gpumem >= 2 {
+		add(2, "gpumem_reset", schedEv{kind: "gpumem", a: 0})
 	}
 	if r.cen.mutex == 0 {
 		ms := []int{20, 20, 20, 150, 150, 4000000}[g.rng.Intn(6)]
@@ -537,6 +685,99 @@ func (g *schedGen) finalStats(r *schedRun) {
 	}
 	if r.stats["end_state_checked"] > 0 {
 		r.stats["traces_end_state_checked"]++
+	}
+}
+
+// ---------------------------------------------------------------------------------------------
+// VERIF_EXTEND=1 (with VERIF_REPLAY): directed search.  After the last event of a replayed script the driver goes on by
+// itself: drain (finish every request, complete every load, answer parked pings, pass every keep-alive), then probe
+// twice per model (a request with a short keep-alive, its load completed, two settle steps, finished, its keep-alive
+// passed), then drain again, so that a fault that is latent at the end of the script (a loop parked for good, a count that
+// never returns to 0, a runner that is never shut down) shows in the end-of-trace monitors.  The case recorded is the
+// extended script.
+
+type schedExtend struct {
+	fixed  *schedFixed
+	g      *schedGen
+	stage  int // 0 script, 1 drain, 2 probes, 3 final drain, 4 end
+	probe  int // 0 .. 2*schedNModels-1
+	step   int
+	probeQ int
+	loads  int
+}
+
+func newSchedExtend(evs []schedEv, script string) *schedExtend {
+	h := uint64(1469598103934665603)
+	for i := 0; i < len(script); i++ {
+		h = (h ^ uint64(script[i])) * 1099511628211
+	}
+	return &schedExtend{fixed: &schedFixed{evs: evs}, g: &schedGen{rng: zzverif.NewRng(h), tags: map[string]int{}, nModels: schedNModels, wantDrain: true}}
+}
+
+func (x *schedExtend) drain(r *schedRun) (schedEv, bool) {
+	if x.g.phase != 1 {
+		x.g.phase, x.g.drainEvs, x.g.bigAdv, x.g.tail, x.g.stuck = 1, 0, 0, 0, 0
+	}
+	e, ok := x.g.drainEvent(r)
+	if !ok {
+		x.g.phase = 0
+	}
+	return e, ok
+}
+
+func (x *schedExtend) next(r *schedRun) (schedEv, bool) {
+	for {
+		switch x.stage {
+		case 0:
+			if e, ok := x.fixed.next(r); ok {
+				return e, true
+			}
+			x.stage = 1
+			r.stats["extended_scripts"]++
+		case 1, 3:
+			if e, ok := x.drain(r); ok {
+				return e, true
+			}
+			x.stage++
+		case 2:
+			if x.probe >= 2*schedNModels || len(r.reqs) >= schedMaxReqs || r.cen.mutex > 0 {
+				x.stage = 3
+				continue
+			}
+			x.step++
+			switch {
+			case x.step == 1:
+				x.probeQ, x.loads = len(r.reqs), 0
+				return schedEv{kind: "submit", a: x.probe % schedNModels, sess: "S"}, true
+			case x.step == 2:
+				// complete every load, answer every parked ping (a probe may have to wait for others)
+				for _, m := range r.mocks {
+					if m.pinging && x.loads < 6 {
+						x.loads++
+						x.step--
+						return schedEv{kind: "pingdone", a: m.id, b: 1}, true
+					}
+					if m.waiting && x.loads < 6 {
+						x.loads++
+						x.step--
+						return schedEv{kind: "loaddone", a: m.id, b: 1}, true
+					}
+				}
+			case x.step == 3 || x.step == 4:
+				return schedEv{kind: "advance", a: 150}, true // an unanswered probe shows here (c02-unanswered)
+			case x.step == 5:
+				if x.probeQ < len(r.reqs) && !r.reqs[x.probeQ].done {
+					return schedEv{kind: "done", a: x.probeQ}, true
+				}
+			case x.step == 6:
+				return schedEv{kind: "advance", a: 150}, true
+			default:
+				x.probe++
+				x.step = 0
+			}
+		default:
+			return schedEv{}, false
+		}
 	}
 }
 
